@@ -234,7 +234,15 @@ def d6_phase_writers(ctx):
                   {"srtla_send::sender::uplink_recv::process_uplink_packet::{closure#0}"}, floor=1)
 
 
-RULES = [d1_sources, d2_selectors, d4_preregistration_switch, d5_data_queue_feeders, d6_phase_writers]
+def d7_timed_out_means_something(ctx):
+    """"not timed out" is tested with is_timed_out, which for a connected link is `last_received is Some & now - last_received >=
+    timeout`: the eligibility test only excludes dead links if every writer keeps connected => last_received.is_some() (a link that
+    becomes connected without a receive stamp can never time out and keeps being routed on).  C10.D3's invariant, shared."""
+    from . import C10
+    C10.connected_implies_received(ctx, "D7")
+
+
+RULES = [d1_sources, d2_selectors, d4_preregistration_switch, d5_data_queue_feeders, d6_phase_writers, d7_timed_out_means_something]
 
 
 def run(ctx):
